@@ -673,7 +673,20 @@ func runC20(c *Ctx) error {
 	var violations []map[string]interface{}
 
 	add := func(x interface{}, ctor, origin string, inDomain bool) {
-		out := valid.GetDumpStructStr(x)
+		out, panicked := func() (s string, p interface{}) {
+			defer func() { p = recover() }()
+			return valid.GetDumpStructStr(x), nil
+		}()
+		if panicked != nil { // "the dumper never fails": a panic is a failing input of its own, the case is not handed on
+			std := ""
+			func() {
+				defer func() { _ = recover() }()
+				std = valid.GetDumpStructStrForJson(x)
+			}()
+			violations = append(violations, map[string]interface{}{
+				"what": "GetDumpStructStr(v) panics", "type": fmt.Sprintf("%T", x), "panic": fmt.Sprint(panicked), "standard_encoding": std, "origin": origin})
+			return
+		}
 		std := valid.GetDumpStructStrForJson(x)
 		rv := reflect.ValueOf(x)
 		agrees := true
